@@ -66,8 +66,15 @@ LexLeq(a, b)  == a[1] < b[1] \/ (a[1] = b[1] /\ a[2] <= b[2])
 LexLess(a, b) == a[1] < b[1] \/ (a[1] = b[1] /\ a[2] < b[2])
 
 \* A day range is [s |-> start, e |-> end] in ticks from 00:00 wall clock;
-\* it holds the times of day in [start, end).
-InRange(r, tod) == LexLeq(<<r.s, 0>>, tod) /\ LexLess(tod, <<r.e, 0>>)
+\* it holds the times of day in [start, end).  A serialised range may carry
+\* sub-tick parts [sn |-> .., en |-> ..] in 0 .. SUB-1 (absent = 0): the bound
+\* is then s + sn/SUB ticks, written in "floor" form also when negative
+\* (-0.5 tick = [s |-> -1, sn |-> SUB/2]).
+SN(r) == IF "sn" \in DOMAIN r THEN r.sn ELSE 0
+EN(r) == IF "en" \in DOMAIN r THEN r.en ELSE 0
+Start(r) == <<r.s, SN(r)>>
+End(r)   == <<r.e, EN(r)>>
+InRange(r, tod) == LexLeq(Start(r), tod) /\ LexLess(tod, End(r))
 
 \* A weekly schedule is a function Weekdays -> day range, attached to a zone.
 \* THE PROPERTY: in effect at an instant exactly when the instant's
@@ -82,17 +89,18 @@ EmptyDay == [s |-> 0, e |-> 0]
 \* -------------------------------------------------------------- validation
 \* "ranges that are negative, inverted, longer than 24h or not whole minutes
 \*  are rejected"
-Negative(r) == r.s < 0 \/ r.e < 0
-Inverted(r) == r.e < r.s
-TooLong(r)  == r.e - r.s > TPD
-Ragged(r)   == r.s % TPM # 0 \/ r.e % TPM # 0
+Negative(r) == r.s < 0 \/ r.e < 0                      \* floor form: bound < 0 iff its tick part < 0
+Inverted(r) == LexLess(End(r), Start(r))
+TooLong(r)  == LexLess(<<r.s + TPD, SN(r)>>, End(r))    \* end - start > 24 h
+Ragged(r)   == r.s % TPM # 0 \/ r.e % TPM # 0 \/ SN(r) # 0 \/ EN(r) # 0
 MustReject(r) == Negative(r) \/ Inverted(r) \/ TooLong(r) \/ Ragged(r)
 
 \* What certainly is a schedule range: the empty range of an unset day and a
 \* non-empty whole-minute range inside one day.
+IsEmptyDay(r) == Start(r) = <<0, 0>> /\ End(r) = <<0, 0>>
 WellFormed(r) ==
-    \/ r = EmptyDay
-    \/ 0 <= r.s /\ r.s < r.e /\ r.e <= TPD /\ ~Ragged(r)
+    \/ IsEmptyDay(r)
+    \/ 0 <= r.s /\ LexLess(Start(r), End(r)) /\ LexLeq(End(r), <<TPD, 0>>) /\ ~Ragged(r)
 
 \* The statement is silent about the remaining ranges (start = end # 0, and
 \* ranges of at most 24h that reach past 24:00, e.g. 23:00-25:00): the set of
